@@ -236,14 +236,16 @@ class DocActions(object):
     # Create undo actions to restore all the data records of this table.
     table_data = self._engine.fetch_table(table_id, formulas=True)
     undo_action = actions.BulkAddRecord(*table_data).simplify()
-    if undo_action:
-      self._engine.out_actions.undo.append(undo_action)
 
     # Update schema, and re-generate the module code.
     schema_table = self._engine.schema.pop(table_id)
     self._engine.rebuild_usercode()
 
-    # Generate the undo action.
+    # Generate the undo actions, only now that the table is really gone: if the step above fails,
+    # the schema is restored and nothing must be left in the undo list for this action. (Undo
+    # actions are applied in reverse order: AddTable first, then the records.)
+    if undo_action:
+      self._engine.out_actions.undo.append(undo_action)
     self._engine.out_actions.undo.append(actions.AddTable(
       table_id, schema.cols_to_dict_list(schema_table.columns)))
     self._engine.out_actions.summary.remove_table(table_id)
